@@ -461,6 +461,11 @@ def finish(pc, props_mod):
                 except Exception as e:
                     rep['search_error'] = repr(e)
             in_baseline = baseline is not None and clause in baseline
+            if baseline is not None and not in_baseline and clause.endswith('/raises'):
+                # on the baselined tree no path of this function raised at all (no raises obligation was
+                # generated); an escaping exception that the contract does not allow is a failed obligation
+                stem = clause[:-len('raises')]
+                in_baseline = any(b.startswith(stem) for b in baseline)
             own = getattr(props_mod, 'OWN', None)
             if in_baseline and own is not None and not any(re.search(rx, clause) for rx in own):
                 # a proof-support clause shared with other properties: its failure breaks this
